@@ -350,6 +350,10 @@ type rcfg struct {
 	// Prime: a slow consumer.  Read mode: Read(nil) first (it starts the pipeline and returns), then wait
 	// this many microseconds; WriteTo mode: every Write of the sink takes this long.
 	Prime int `json:"prime,omitempty"`
+	// PreBytes > 0: an earlier life of the same Reader - it reads exactly PreBytes bytes of the same stream with
+	// PreBuf-byte buffers (no further Read: the end of the stream is never asked for), then Reset(source)
+	PreBytes int `json:"preBytes,omitempty"`
+	PreBuf   int `json:"preBuf,omitempty"`
 }
 
 type robs struct {
@@ -423,6 +427,9 @@ func runReader(data []byte, cfg rcfg, watchdog time.Duration, outLimit int) robs
 	return runReaderDelay(data, cfg, watchdog, outLimit, 0)
 }
 
+// afterPreLife is called (once) between the earlier life of a Reader (rcfg.PreBytes) and the judged run.
+var afterPreLife func()
+
 func runReaderDelay(data []byte, cfg rcfg, watchdog time.Duration, outLimit int, delay time.Duration) robs {
 	base := lz4Goroutines()
 	done := make(chan robs, 1)
@@ -436,7 +443,11 @@ func runReaderDelay(data []byte, cfg rcfg, watchdog time.Duration, outLimit int,
 			o.Consumed, o.SrcCalls = src.position()
 			done <- o
 		}()
-		zr := lz4.NewReader(src)
+		var first io.Reader = src
+		if cfg.PreBytes > 0 {
+			first = &fragReader{data: data, pattern: cfg.Frag}
+		}
+		zr := lz4.NewReader(first)
 		if cfg.Conc != 1 {
 			c := cfg.Conc
 			if c == 0 {
@@ -445,6 +456,29 @@ func runReaderDelay(data []byte, cfg rcfg, watchdog time.Duration, outLimit int,
 			if err := zr.Apply(lz4.ConcurrencyOption(c)); err != nil {
 				o.Outcome, o.Err = "error", classify(err)
 				return
+			}
+		}
+		if cfg.PreBytes > 0 {
+			pb := cfg.PreBuf
+			if pb <= 0 {
+				pb = 4096
+			}
+			pbuf := make([]byte, pb)
+			for got := 0; got < cfg.PreBytes; {
+				want := cfg.PreBytes - got
+				if want > pb {
+					want = pb
+				}
+				n, err := zr.Read(pbuf[:want])
+				got += n
+				if err != nil || n == 0 {
+					break
+				}
+			}
+			zr.Reset(src)
+			if afterPreLife != nil {
+				afterPreLife()
+				afterPreLife = nil
 			}
 		}
 		out := &limitedBuf{limit: outLimit}
